@@ -4,6 +4,11 @@
 //!   small  [--full 1] --out F            state injection: every (feed state, request) of a finite domain
 //!   random --seed S --n N --out F        random update sequences (runs of 16, `reset` between runs)
 //!   replay --in F --out F                re-execute recorded events (pre state + request)
+//!   wide   --seed S --n N --out F        type-limit tier: timestamps / clock at and around i64::MIN, i64::MAX, 0,
+//!                                        +-1, +-2^31, +-2^62, slots and max_future_excess at the u64 limits, prices
+//!                                        up to u128::MAX, mixed with small and realistic values.  Every number is
+//!                                        logged as {s: decimal string, neg, l: 7 limbs base 2^20, most significant
+//!                                        first} and judged by TLC with limb arithmetic (FeedBigProps.tla)
 use anchor_lang::prelude::Pubkey;
 use gmsol_store::states::oracle::verif::feed as hook;
 use gmsol_store::states::{PriceFeed, PriceFeedPrice, PriceProviderKind};
@@ -210,6 +215,121 @@ fn replay(args: &Args) -> i32 {
     0
 }
 
+// ------------------------------------------------------------------------------------------
+// type-limit tier
+fn big(v: i128) -> Value {
+    let mut m = v.unsigned_abs();
+    let mut l = [0u32; 7];
+    for i in (0..7).rev() {
+        l[i] = (m & 0xF_FFFF) as u32;
+        m >>= 20;
+    }
+    assert!(m == 0);
+    json!({"s": v.to_string(), "neg": v < 0, "l": l})
+}
+fn bigu(v: u128) -> Value {
+    let mut m = v;
+    let mut l = [0u32; 7];
+    for i in (0..7).rev() {
+        l[i] = (m & 0xF_FFFF) as u32;
+        m >>= 20;
+    }
+    assert!(m == 0);
+    json!({"s": v.to_string(), "neg": false, "l": l})
+}
+fn st_big(s: &St) -> Value {
+    json!({"slot": bigu(s.slot as u128), "pub": big(s.publ as i128), "ts": big(s.ts as i128), "price": bigu(s.price),
+           "min": bigu(s.min), "max": bigu(s.max)})
+}
+
+fn pick_i64(rng: &mut Rng) -> i64 {
+    const B: [i64; 17] = [i64::MIN, i64::MIN + 1, i64::MIN + 5, -(1 << 62), -(1 << 31) - 1, -(1 << 31), -1, 0, 1, 1 << 31,
+        (1 << 31) + 1, 1_700_000_000, 1 << 62, i64::MAX - 5, i64::MAX - 1, i64::MAX, 1_000_000];
+    match rng.below(10) {
+        0..=5 => B[rng.below(17) as usize].saturating_add(if rng.chance(1, 3) { rng.range(-3, 3) } else { 0 }),
+        6 | 7 => rng.range(-5, 50),
+        8 => 1_700_000_000 + rng.range(-100, 100),
+        _ => rng.next() as i64,
+    }
+}
+fn pick_u64(rng: &mut Rng) -> u64 {
+    const B: [u64; 9] = [0, 1, 2, 1 << 31, 1 << 32, 1 << 63, (1 << 63) - 1, u64::MAX - 1, u64::MAX];
+    match rng.below(8) {
+        0..=3 => B[rng.below(9) as usize],
+        4 | 5 => rng.below(20),
+        _ => rng.next(),
+    }
+}
+fn pick_u128(rng: &mut Rng) -> u128 {
+    const B: [u128; 9] = [0, 1, 2, 1 << 32, 1 << 64, (1 << 64) - 1, 1 << 127, u128::MAX - 1, u128::MAX];
+    match rng.below(8) {
+        0..=2 => B[rng.below(9) as usize],
+        3..=5 => rng.below(10) as u128,
+        _ => rng.next128(),
+    }
+}
+
+fn wide(args: &Args) -> i32 {
+    let mut rng = Rng::new(args.num("seed", 1));
+    let n = args.num("n", 3000);
+    let mut sink = Sink::create(&args.str("out", "c25-wide.ndjson"));
+    let mut f = new_feed();
+    for i in 0..n {
+        // runs of 8 chained steps; every run starts from an injected (valid or arbitrary) state
+        let reset = i % 8 == 0;
+        if reset {
+            let a = pick_u128(&mut rng);
+            let b = pick_u128(&mut rng);
+            let c = pick_u128(&mut rng);
+            let mut v = [a, b, c];
+            if rng.chance(5, 6) {
+                v.sort();
+            }
+            let pre = St { slot: pick_u64(&mut rng) / 2, publ: pick_i64(&mut rng), ts: pick_i64(&mut rng), min: v[0], price: v[1], max: v[2] };
+            inject(&mut f, &pre);
+        }
+        let cur = project(&f);
+        let a = pick_u128(&mut rng);
+        let b = pick_u128(&mut rng);
+        let c = pick_u128(&mut rng);
+        let mut v = [a, b, c];
+        if rng.chance(4, 5) {
+            v.sort();
+        }
+        // the clock mostly does not run backwards
+        let slot = if rng.chance(4, 5) { cur.slot.saturating_add(pick_u64(&mut rng) % 1000) } else { pick_u64(&mut rng) };
+        let now = if rng.chance(4, 5) { cur.publ.saturating_add((pick_u64(&mut rng) % 1000) as i64) } else { pick_i64(&mut rng) };
+        let ts = match rng.below(4) {
+            0 => cur.ts.saturating_add(rng.range(-2, 3)),
+            1 => now.saturating_add(rng.range(-3, 3)),
+            _ => pick_i64(&mut rng),
+        };
+        let r = Req { price: v[1], min: v[0], max: v[2], ts, slot, now, excess: pick_u64(&mut rng), idem: rng.chance(1, 2) };
+        // one step, logged with big numbers
+        let pre = project(&f);
+        let before: Vec<u8> = bytemuck::bytes_of(&*f).to_vec();
+        stubs::set_clock(r.now, r.slot);
+        let p = PriceFeedPrice::new(8, r.ts, r.price, r.min, r.max, 0);
+        let out = guarded(|| hook::update(&mut f, &p, r.excess, r.idem));
+        let post = project(&f);
+        let same = before.as_slice() == bytemuck::bytes_of(&*f);
+        let (res, err, panic) = match &out {
+            Err(()) => ("err".to_string(), "panic".to_string(), true),
+            Ok(Ok(true)) => ("ok".to_string(), String::new(), false),
+            Ok(Ok(false)) => ("skip".to_string(), String::new(), false),
+            Ok(Err(e)) => ("err".to_string(), err_name(e), false),
+        };
+        sink.emit(json!({
+            "op": "update", "reset": reset, "pre": st_big(&pre), "post": st_big(&post),
+            "price": bigu(r.price), "min": bigu(r.min), "max": bigu(r.max), "ts": big(r.ts as i128), "slot": bigu(r.slot as u128),
+            "now": big(r.now as i128), "excess": bigu(r.excess as u128), "idem": r.idem, "res": res, "err": err, "same": same,
+            "panic": panic,
+        }));
+    }
+    eprintln!("c25 wide: {} events", sink.finish());
+    0
+}
+
 fn main() {
     h_programs::util::quiet_panics();
     stubs::install();
@@ -219,6 +339,7 @@ fn main() {
         "small" => small(&args),
         "random" => random(&args),
         "replay" => replay(&args),
+        "wide" => wide(&args),
         _ => {
             eprintln!("unknown mode {mode}");
             2
